@@ -82,7 +82,22 @@ def main(tier, rep):
                              ("call", "add", False, None, "all")]
                     progs.append((cfg, steps))
     traces = [L.run_program(cfg, steps) for cfg, steps in progs]
+    # a HashClient that gives up on its server (retry_attempts exhausted) while the server is coming back: whatever
+    # connection the last probes opened is closed by close()
+    giveup = []
+    for kind in ("hash", "hashpooled"):
+        for ra in (0, 1, 2):
+            for nfail in range(1, ra + 3):
+                for op in ("get", "set"):
+                    cfg = L.Cfg(kind=kind, hash_ra=ra)
+                    steps = []
+                    for i in range(nfail):
+                        steps += [("call", op, False if op == "set" else None, {("connect", 1): "refused"}, "all"), ("tick", 1)]
+                    steps += [("call", op, False if op == "set" else None, None, "all"), ("tick", 1), ("call", "get", None, None, "all")]
+                    giveup.append(L.run_program(cfg, steps))
     L.validate(rep, traces, relevant, PROP)
+    # (whether the next call works is failover's business there, C13: only the socket bookkeeping clauses apply)
+    L.validate(rep, giveup, lambda c: relevant(c) and c != "C06-next-call-after-a-failure-works", PROP)
     # code -> spec on executions the harness did not design: the repository's own integration tests
     from drivers import repoit
     repoit.conn_part(rep, PROP, relevant)
